@@ -207,13 +207,21 @@ impl<'r> World<'r> {
             Chain::C(_) => None,
         }
     }
+    fn app_static_c(&self) -> Option<&'static SvAppC> {
+        match &self.chain {
+            Chain::C(b) => Some(unsafe { &*(&**b as *const SvAppC) }),
+            Chain::E(_) => None,
+        }
+    }
 
     /// store through the generated multitest `CodeId::store_code` (no link in between)
     pub fn store_via_proxy(&mut self, code: &Code) -> Result<u64, String> {
         let e: &Entry = self.reg.get(&code.cid).ok_or_else(|| format!("unknown cid {}", code.cid))?;
         let p = e.proxy.as_ref().ok_or("program has no proxy glue")?;
-        let app = self.app_static().ok_or("proxies are driven on the Empty chain only")?;
-        let pc = (p.store)(app);
+        let pc = match p {
+            rt::proxy::ProxyFns::E { store, .. } => store(self.app_static().ok_or("program is for the Empty chain")?),
+            rt::proxy::ProxyFns::C { store, .. } => store(self.app_static_c().ok_or("program is for the custom chain")?),
+        };
         let id = pc.code_id();
         self.code_ids.push(id);
         self.codes.push(code.clone());
@@ -223,7 +231,6 @@ impl<'r> World<'r> {
 
     /// one proxy call; panics of the proxy are caught and reported as such
     pub fn proxy_apply(&mut self, t: &Twin) -> Outcome {
-        let Some(app) = self.app_static() else { return Outcome::Panic("harness: no app".into()) };
         let sender = Addr::unchecked(t.sender.clone());
         let args = serde_json::to_vec(&t.args).unwrap();
         let funds = t.funds.clone();
@@ -238,8 +245,18 @@ impl<'r> World<'r> {
             let Some(p) = e.proxy.as_ref() else { return Outcome::Panic("harness: no proxy glue".into()) };
             let addr = Addr::unchecked(c.addr.clone());
             let new_code = self.code_ids.get(t.code).copied().unwrap_or(9999);
-            let call = p.call;
-            guarded(|| call(app, &addr, &t.hid, &args, funds.as_deref(), &sender, new_code))
+            match p {
+                rt::proxy::ProxyFns::E { call, .. } => {
+                    let Some(app) = self.app_static() else { return Outcome::Panic("harness: wrong chain".into()) };
+                    let call = *call;
+                    guarded(|| call(app, &addr, &t.hid, &args, funds.as_deref(), &sender, new_code))
+                }
+                rt::proxy::ProxyFns::C { call, .. } => {
+                    let Some(app) = self.app_static_c() else { return Outcome::Panic("harness: wrong chain".into()) };
+                    let call = *call;
+                    guarded(|| call(app, &addr, &t.hid, &args, funds.as_deref(), &sender, new_code))
+                }
+            }
         };
         match out {
             Err(p) => Outcome::Panic(p),
